@@ -156,6 +156,18 @@ class ConsistentLeg(object):
             kids = sorted(f.id for f in db.children("f0", level=1))
             if kids != sorted("f%d" % i for i in range(1, n)):
                 return Failure("GFF input: children of f0 %r" % kids, sig={"kind": "routing"})
+        # force_gff only selects the importer: the reported dialect is still the file's, and lines print as written
+        if d["style"] == "gtf" and n % 2 == 0:
+            dbf = gffutils.create_db(path, ":memory:", checklines=cl, keep_order=True, force_gff=True)
+            bad = _cmp_dialect(dbf.dialect, want_o, "create_db(force_gff=True).dialect")
+            if bad:
+                return bad
+            ff = list(dbf.all_features())
+            if len(ff) != n or any(f.source == "gffutils_derived" for f in ff):
+                return Failure("force_gff=True: %d rows for %d lines" % (len(ff), n), sig={"kind": "routing"})
+            for f, r in zip(ff, recs):
+                if tm.line_conditions(r, d, want_o)[1] and str(f) != tm.render_line(r, d):
+                    return Failure("force_gff=True: line prints %r, input %r" % (str(f), tm.render_line(r, d)), sig={"kind": "bytes"})
         # and every line comes back byte for byte (all lines exhibit the dialect);
         # keys first seen after the window must sort after the window's keys
         lines = [tm.render_line(r, d) for r in recs]
